@@ -265,8 +265,12 @@ def run(cx, rep):
             fn = m["function"]
             txt = "".join(mod.text(fn).split())
             rec = [n for n in walk(fn) if n["type"] == "CallExpression" and s(n["callee"]) == "collectDescribeRefs"]
-            guards = [n for n in walk(fn) if n["type"] == "IfStatement" and re.search(r"(activeRefs|visitedRefs)\.has\(", s(n["test"])) and any(x["type"] == "ReturnStatement" for x in walk(n["consequent"]))]
-            ok = len(rec) == 1 and len(guards) >= 2 and all(g["span"]["end"] <= rec[0]["span"]["start"] for g in guards) and \
+            # the descent runs only when the name is neither being described nor already described (however the two
+            # tests are spelled: two guards, one `||` guard, a positive `if (!a && !b) {..}`)
+            ka = ts_common.known_atoms(fn, rec[0]) if len(rec) == 1 else {}
+            not_active = any(re.search(r"activeRefs\.has\(", a_) and v_ is False for a_, v_ in ka.items())
+            not_visited = any(re.search(r"visitedRefs\.has\(", a_) and v_ is False for a_, v_ in ka.items())
+            ok = len(rec) == 1 and not_active and not_visited and \
                 "activeRefs.add(" in txt and "activeRefs.delete(" in txt and txt.index("activeRefs.add(") < txt.index("collectDescribeRefs(this") < txt.index("activeRefs.delete(")
             rep.ob("C15.4", "%s.collectDescribeRefs" % cn, ok, "%s.collectDescribeRefs must test activeRefs/visitedRefs before descending and add/delete the active mark around the recursive call" % cn, mod.loc(fn))
         d = c.methods.get("describe")
